@@ -26,8 +26,13 @@ fn string_clone(s: &String) -> (r: String) ensures r@ == s@ { unimplemented!() }
 fn string_new() -> (r: String) ensures r@.len() == 0 { unimplemented!() }
 
 //@struct file=yarel/src/compiler.rs name=Local
-//@struct file=yarel/src/compiler.rs name=Compiler keepfields=locals
+//@enum file=yarel/src/compiler.rs name=FunctionKind eq=1
+//@struct file=yarel/src/compiler.rs name=Compiler keepfields=locals,kind
 //@struct file=yarel/src/compiler.rs name=ClassCompiler
+
+// std `==` between a String and a str: same characters
+#[verifier::external_body]
+fn str_eq(a: &String, b: &str) -> (r: bool) ensures r == (a@ == b@) { unimplemented!() }
 
 pub struct Parser {
     pub previous: Token,
@@ -84,6 +89,21 @@ impl Parser {
     //@  loop 0 decreases __k0
     //@  at body.start proof { assert(self.compilers@.take(self.compilers@.len() as int) =~= self.compilers@); }
     //@  at loop0.start proof { assert(self.compilers@.take(__k0 as int).drop_last() =~= self.compilers@.take(__k0 - 1)); assert(self.compilers@.take(__k0 as int).last() == self.compilers@[__k0 - 1]); }
+    //@end
+
+    // compiler.rs Parser::variable: resolves the token just consumed like any other name
+    #[verifier::external_body]
+    fn variable(s: &mut Parser, can_assign: bool)
+        ensures final(s).resolved == old(s).resolved.push(old(s).previous.source@), final(s).compilers@.len() == old(s).compilers@.len(), final(s).class_compilers == old(s).class_compilers, old(s).had_error ==> final(s).had_error
+    { unimplemented!() }
+    // `self` names the receiver of the ENCLOSING METHOD, however many plain functions lie in between; where that method is
+    // a static method (its slot 0 is called `Self`) there is no receiver: a compile error, not whatever an outer
+    // function happens to call its slot 0
+    //@fn file=yarel/src/compiler.rs path=Parser::self_
+    //@  rewrite R29
+    //@  requires old(s).wf()
+    //@  ensures @self_inside_a_static_method_is_a_compile_error_however_deeply_nested (old(s).class_compilers@.len() > 0 && receiver_of(old(s).compilers@) == "Self"@) ==> final(s).had_error && final(s).resolved == old(s).resolved
+    //@  ensures @self_outside_a_class_is_a_compile_error old(s).class_compilers@.len() == 0 ==> final(s).had_error && final(s).resolved == old(s).resolved
     //@end
 
     //@fn file=yarel/src/compiler.rs path=Parser::super_
